@@ -82,6 +82,16 @@ def gen_block_cases(ctx):
             size *= s
           g = [rng.rint(-7, 7) for _ in range(size)]
           cases.append(dict(kind="block", shape=shape, cr=cr, g=g, preconds=pcs, axis=axis))
+          if rep % 3 == 0:
+            # the same block with a half-precision gradient and float32 preconditioners (what the
+            # optimizer holds for bfloat16 parameters): the packed application must still be the dense
+            # matrix's, computed in float32 -- small integers keep every intermediate value exact there,
+            # while a computation in the gradient's 8-bit mantissa is not (added after a seeded change
+            # was missed)
+            # gradient entries up to 250 are exact in bfloat16 (8 bits) but their projections are not
+            gh = [rng.rint(-250, 250) for _ in range(size)]
+            cases.append(dict(kind="block", shape=shape, cr=cr, g=gh, preconds=pcs, axis=axis,
+                              gdtype="bfloat16", pdtype="float32"))
   return cases
 
 
